@@ -116,7 +116,9 @@ def load(chk: Check, tier: str) -> List[Dict[str, Any]]:
 
 FUZZ_DOCS = [[{"a": "ab"}, {"a": "a b"}, {"a": True}, {"a": 1}, {"a": 1e16}, {"a": 15.0}, {"a": "a", "b": [1]}, {"b": 2}, [1, [2]], "s", 1, None, False, {}],
              {"a": [1, 2, {"a": 1, "b": {"a": "b"}}], "b": "a", "1": 1, "é": None},
-             [[0], [10, 11, 12, 13, 14, 15], [20, [21, 22, 23], 24], 10 ** 23, 99999999999999991611392]]
+             [[0], [10, 11, 12, 13, 14, 15], [20, [21, 22, 23], 24], 10 ** 23, 99999999999999991611392],
+             # members named like indices (an index selector applied to an object selects the member with the decimal spelling)
+             {"a": {"1": "one", "0": "zero", "-1": "minus one", "b": [1]}, "1": {"a": 1}, "-1": [2]}]
 
 
 def fuzz_roundtrip(s: List[str]) -> List[Tuple[str, Dict[str, Any], str]]:
@@ -125,7 +127,7 @@ def fuzz_roundtrip(s: List[str]) -> List[Tuple[str, Dict[str, Any], str]]:
 
     import jsonpath
 
-    text = "".join({"EACUTE": "\u00e9", "SUPER2": "\u00b2", "HUGE": "9" * 4400, "LIMIT4300": "9" * 4300, "SQRUN": "'" + "\\" * 70, "DQRUN": '"' + "\\" * 70,
+    text = "".join({"EACUTE": "\u00e9", "SUPER2": "\u00b2", "ARDIGIT1": "\u0661", "HUGE": "9" * 4400, "LIMIT4300": "9" * 4300, "SQRUN": "'" + "\\" * 70, "DQRUN": '"' + "\\" * 70,
                     "RERUN": "/" + "\\" * 70}.get(x, x) for x in s)
     try:
         p1 = jsonpath.compile(text)
